@@ -112,9 +112,29 @@ def c11(seed, tier, broken):
 
 
 def replay_generic(rep):
-    print(json.dumps(rep, indent=1)[:4000])
-    print("re-run the property's search on the current tree: ./check <id> --tier thorough")
-    return 1
+    """re-run the search that produced the witness, with the recorded seed/tier, on the current /repo"""
+    w = rep.get("witness")
+    pid = rep.get("property")
+    if not w:
+        print("replay file names a broken theorem/correspondence, not an input:")
+        print(json.dumps(rep.get("no_longer_checks"), indent=1)[:3000])
+        return 1
+    fn = globals().get(pid.lower())
+    if fn is None:
+        print(json.dumps(w, indent=1)[:3000])
+        return 1
+    seed = int(w.get("seed", rep.get("seed", 0)))
+    tier = w.get("tier", "quick")
+    r = fn(seed, tier, w.get("broken_at_search_time", True))
+    same = [x for x in r.get("found", []) if x.get("match") == w.get("match")]
+    print("recorded witness: match=%s what=%s" % (w.get("match"), w.get("what")))
+    if same:
+        x = dict(same[0])
+        x.pop("desc", None)
+        print("REPRODUCED on the current tree:", json.dumps(x, default=str)[:1500])
+        return 1
+    print("not reproduced on the current tree (search: %d evaluations, %d other witnesses)" % (r.get("evaluations", 0), len(r.get("found", []))))
+    return 0
 
 
 def c02(seed, tier, broken):
